@@ -619,31 +619,61 @@ func cmdCheck(prop, tier string) int {
 		}
 		writeJSON(path, rf)
 		// the final file must reproduce in a fresh process, twice, identically
-		ok := true
-		var hashes []string
-		for k := 0; k < 2; k++ {
-			res, crashed, sig, _ := runReplay(bin, dir, path, false, fmt.Sprintf("confirm%d", k))
+		confirm := func(n int, tag string) (hits int, sameTrace bool) {
+			var hashes []string
+			for k := 0; k < n; k++ {
+				res, crashed, sig, _ := runReplay(bin, dir, path, false, fmt.Sprintf("%s%d", tag, k))
+				if f.crash {
+					if crashed && sig == f.v.Msg {
+						hits++
+					}
+					continue
+				}
+				if crashed || res == nil {
+					continue
+				}
+				for _, v := range append(res.Violations, res.KnownHits...) {
+					if v.Rule == f.v.Rule {
+						hits++
+						hashes = append(hashes, res.TraceHash)
+						break
+					}
+				}
+			}
+			sameTrace = true
+			for _, h := range hashes {
+				sameTrace = sameTrace && h == hashes[0]
+			}
+			return
+		}
+		hits, same := confirm(2, "confirm")
+		if hits < 2 || !same {
+			// Not exactly reproducible. The recorded schedule is replayed exactly,
+			// so the difference comes from a choice the Go runtime makes inside
+			// the code under test (a select with several ready cases, goroutines
+			// racing for a lock that is not a scheduler seam). Fall back to the
+			// unshrunk schedule and replay it several times: a violation that
+			// shows up again at least once is reported, with that caveat in the
+			// replay file; one that never does is harness trouble.
+			orig := f.rf
+			orig.Violation = f.v
 			if f.crash {
-				ok = ok && crashed && sig == f.v.Msg
+				orig = rf
+			}
+			if len(orig.Decisions) > 0 {
+				writeJSON(path, orig)
+				rf = orig
+			}
+			const tries = 6
+			h2, _ := confirm(tries, "reconfirm")
+			if h2 == 0 {
+				harnessTrouble = append(harnessTrouble, fmt.Sprintf("violation %s/%s (run %d) did not replay from %s in %d attempts: %s", prop, f.v.Rule, rf.Run, path, tries+2, f.v.Msg))
 				continue
 			}
-			if crashed || res == nil {
-				ok = false
-				continue
-			}
-			hit := false
-			for _, v := range append(res.Violations, res.KnownHits...) {
-				hit = hit || v.Rule == f.v.Rule
-			}
-			ok = ok && hit
-			hashes = append(hashes, res.TraceHash)
-		}
-		if len(hashes) == 2 && hashes[0] != hashes[1] {
-			ok = false
-		}
-		if !ok {
-			harnessTrouble = append(harnessTrouble, fmt.Sprintf("violation %s/%s (run %d) did not replay identically from %s: %s", prop, f.v.Rule, rf.Run, path, f.v.Msg))
-			continue
+			rf.Minimized = false
+			rf.Note = fmt.Sprintf("NOT exactly reproducible: the violation showed up in %d of %d replays of this schedule in fresh processes. The schedule and every fault are replayed exactly; the outcome additionally depends on a choice the Go runtime makes inside the code under test (e.g. a select with several ready cases), which the simulator does not control. Replay it several times.", h2, tries)
+			writeJSON(path, rf)
+			fmt.Printf("note: %s/%s replays only intermittently (%d of %d attempts); reported with the unshrunk schedule\n", prop, f.v.Rule, h2, tries)
 		}
 		if k := matchKnown(known, rf.Violation); k != nil {
 			if !knownHit[k.What] {
